@@ -232,8 +232,41 @@ def kf49(filters, datas) -> bool:
         return False
 
 
+def drain_compressors(z):
+    """after a write call failed: flush the codec objects of the open folder so that none is freed with pending data"""
+    try:
+        folders = z.header.main_streams.unpackinfo.folders
+    except Exception:
+        return
+    for fo in folders:
+        comp = getattr(fo, "compressor", None)
+        for stage in (getattr(comp, "chain", None) or []):
+            try:
+                stage.flush()
+            except BaseException:
+                pass
+
+
+def absorb_destructor_error():
+    """inflate64.Deflater, freed with pending data after a failed write, leaves an error set in its destructor; the next
+    unrelated C call then raises SystemError('... returned a result with an exception set').  Trigger and swallow it here."""
+    import gc
+
+    for _ in range(4):
+        try:
+            gc.collect()
+            int("0")
+            bytes.fromhex("00")
+            return
+        except SystemError:
+            continue
+        except Exception:
+            continue
+
+
 def tag_kf47(out, pairs):
     """pairs: [(filters, [member bytes of that folder in order])].  Marks every violation of a case in which KF-47 applies."""
+    absorb_destructor_error()
     if out is None or not getattr(out, "violations", None):
         return out
     try:
